@@ -30,6 +30,9 @@ class Hist:
         self.ref.finfo_expect = finfo_expect
         self.ops, self.exp = [], []
         self.do("reset")
+        # half of the histories run all their stream-based ops (encodes/decodes/finfo) on ONE long-lived lzma_stream that is
+        # re-initialised without lzma_end() after success, mid-stream abandon or error of the previous op
+        self.do("reuse %d" % (1 if ctx.rng.random() < 0.5 else 0))
 
     def do(self, line):
         e = self.ref.op(line)
@@ -286,6 +289,18 @@ def h_limits(ctx, rng, fe):
     """Histories aimed at LZMA_VLI_MAX / UNPADDED_SIZE_MAX / file-size limits; every failing op is followed by a dump."""
     h = Hist(ctx, "limits", fe)
     h.do("init 0")
+    if rng.random() < 0.35:
+        # a refused lzma_index_stream_padding() must leave the earlier NON-ZERO padding in place
+        for _ in range(rng.randrange(0, 3)):
+            h.do("append 0 %d %d" % (rng.randrange(5, 100), rng.randrange(0, 1000)))
+        h.do("padding 0 %d" % (4 * rng.randrange(1, 3000)))
+        h.do("padding 0 %d" % rng.choice([VM & ~3, (VM & ~3) - 4 * rng.randrange(0, 12), 1 << 62]))
+        h.do("sum 0")
+        h.do("iter 0 1")
+        h.do("init 1")
+        h.do("append 1 9 9")
+        h.do("cat 0 1")
+        h.do("iter 0 0")
     for _ in range(rng.randrange(4, 30)):
         live = h.live()
         k = rng.choice(live)
@@ -447,9 +462,51 @@ def gen_file_index(rng, nstreams, bigpad):
     return ix
 
 
+def sized_stream(rng, span, padding):
+    """A Stream (one junk Block + possibly a few small ones) that occupies exactly `span` bytes, followed by `padding`."""
+    s = R.Stream()
+    s.flags = (0, 0, rng.choice([0, 1, 4, 10]))
+    for _ in range(rng.randrange(0, 3)):
+        s.add(rng.randrange(5, 40), rng.randrange(0, 100))
+    # one more Block fills the rest: span = 24 + bsize + index_size
+    for u in range(max(5, span - s.csize() - 40), span):
+        t = s.copy()
+        t.add(u, rng.randrange(0, 1000))
+        if t.csize() == span:
+            t.padding = padding
+            return t
+    return None
+
+
+def gen_window_file(rng):
+    """Layouts around the 8 KiB temp window of file_info.c: the window that ends at EOF (or at the start of the last Stream)
+    begins inside / at the edges of the Stream Padding of the previous Stream."""
+    pad = 4 * rng.choice([1, 2, 3, 4, 8])
+    tail_pad = 4 * rng.choice([0, 0, 1, 2])
+    k = rng.choice([1, 1, 2])
+    target = k * 8192 + 12 * (k - 1) - tail_pad + 4 * rng.randrange(-(pad // 4) - 2, 3)
+    b = sized_stream(rng, target, tail_pad)
+    if b is None or target < 64:
+        return None
+    a = gen_file_index(rng, rng.choice([1, 2]), False)
+    a[-1].padding = pad
+    ix = a + [b]
+    if rng.random() < 0.3:
+        ix += gen_file_index(rng, 1, False)
+    for s in ix:
+        s.flags = (0, R.index_size(len(s.blocks), s.lsize), s.flags[2])
+    return ix
+
+
 def h_finfo(ctx, rng, fe, thorough):
     h = Hist(ctx, "finfo", fe)
-    ix = gen_file_index(rng, rng.choice([1, 1, 2, 3, 4, rng.randrange(1, 9)]), bigpad=rng.random() < (0.5 if thorough else 0.25))
+    ix = None
+    if rng.random() < 0.3:
+        ix = gen_window_file(rng)
+        if ix is not None:
+            ctx.count("finfo:window-aligned-layout")
+    if ix is None:
+        ix = gen_file_index(rng, rng.choice([1, 1, 2, 3, 4, rng.randrange(1, 9)]), bigpad=rng.random() < (0.5 if thorough else 0.25))
     data = R.build_file(ix, rng)
     hx = data.hex()
     chunks = [len(data) + 5, 1, rng.choice([2, 3, 5, 7, 12, 13]), rng.choice([64, 100, 1000, 4096, 8191, 8192, 8193])]
@@ -558,7 +615,8 @@ def h_corpus(ctx, fe):
             continue
         h = Hist(ctx, "corpus", fe)
         for l in ops[1:] if ops and ops[0] == "reset" else ops:
-            h.do(l)
+            if not l.startswith("reuse"):
+                h.do(l)
         out.append(h)
     return out
 
